@@ -16,11 +16,11 @@
    Time as in UdpExchange: a would-block costs 2 ticks, deadlines are odd, 0 = none. *)
 EXTENDS ReplyVocab, TLC
 
-CONSTANTS Cases,      \* configurations: [api, qlen, msg, L, pad, v, extra, it, deadline, tz]
+CONSTANTS Cases,      \* configurations: [api, qlen, msg, L, pad, v, extra, it, deadline, tz, qop, conn]
           MaxBlocks
 
 VARIABLES cfg,
-          phase,    \* "send" | "len" | "body" | "done" | "eof" | "timeout" | "hang"
+          phase,    \* "connect" | "send" | "len" | "body" | "done" | "eof" | "timeout" | "hang"
           sent,     \* positions of the frame accepted by the socket so far, in order
           need,     \* octets the current read phase needs in total
           got,      \* octets of them read so far
@@ -30,8 +30,12 @@ VARIABLES cfg,
           result    \* "-" | "ret" | "raise"
 vars == <<cfg, phase, sent, need, got, buf, pos, now, nblocks, result>>
 
-CaseType == [api : {"send", "recv", "tcp"}, qlen : Nat, msg : ReplyType, L : Nat, pad : Nat, v : Nat,
-             extra : Nat, it : BOOLEAN, deadline : Nat, tz : {"-", "int0", "float0", "tiny"}]
+(* api "tls" = DNS over TLS: the same framing over a TLS stream.  conn = "own": the call makes its
+   own connection first (phase "connect": TCP connect and, for tls, the handshake); the time that
+   takes counts against the ONE deadline of the call.  conn = "given": a connected socket is passed in.
+   qop = opcode of the message sent (ReplyVocab). *)
+CaseType == [api : {"send", "recv", "tcp", "tls"}, qlen : Nat, msg : ReplyType, L : Nat, pad : Nat, v : Nat,
+             extra : Nat, it : BOOLEAN, deadline : Nat, tz : {"-", "int0", "float0", "tiny"}, qop : SentOpcodes, conn : {"given", "own"}]
 
 FrameQ == 2 + cfg.qlen
 StreamLen == 2 + cfg.L + cfg.extra
@@ -42,18 +46,23 @@ Range(a, n) == [i \in 1..n |-> a + i]      \* positions a+1 .. a+n
 
 \* what becomes of a completely reassembled message: receive_tcp returns any well-formed
 \* message, tcp only a response to the query that was sent
-MsgOK == ParsesWith(cfg.msg, cfg.it) /\ (cfg.api = "tcp" => RespondsToQuery(cfg.msg))
+MsgOK == ParsesWith(cfg.msg, cfg.it) /\ (cfg.api \in {"tcp", "tls"} => RespondsTo(cfg.msg, cfg.qop))
 
-Active == phase \in {"send", "len", "body"}
+Active == phase \in {"connect", "send", "len", "body"}
 \* tz as in UdpExchange: with deadline = 0, "-" = no timeout, else a zero/tiny timeout = deadline at tick 0
 HasDeadline == cfg.deadline # 0 \/ cfg.tz # "-"
 ZeroTimeouts(S) == {[c EXCEPT !.tz = z] : c \in {x \in S : x.deadline = 0}, z \in {"int0", "float0", "tiny"}}
 Expiring(dt) == HasDeadline /\ now + dt > cfg.deadline
 
 Init == /\ cfg \in Cases
-        /\ phase = IF cfg.api = "recv" THEN "len" ELSE "send"
+        /\ phase = IF cfg.conn = "own" THEN "connect" ELSE IF cfg.api = "recv" THEN "len" ELSE "send"
         /\ sent = <<>> /\ need = 2 /\ got = 0 /\ buf = <<>> /\ pos = 0
         /\ now = 0 /\ nblocks = 0 /\ result = "-"
+
+\* the connection (and TLS session) is established
+Connected == /\ phase = "connect"
+             /\ phase' = "send"
+             /\ UNCHANGED <<cfg, sent, need, got, buf, pos, now, nblocks, result>>
 
 \* the socket takes the next n octets of what is offered
 Take(n) ==
@@ -98,19 +107,21 @@ Silence == /\ Active
 
 Next == \/ \E n \in 1..(2 + cfg.qlen) : Take(n)
         \/ \E n \in 1..(2 + cfg.L + cfg.extra) : Chunk(n)
-        \/ Eof \/ Block \/ Silence
+        \/ Eof \/ Block \/ Silence \/ Connected
 
 Spec == Init /\ [][Next]_vars /\ WF_vars(Next)
 
 -----------------------------------------------------------------------------
 TypeOK == /\ cfg \in CaseType
-          /\ phase \in {"send", "len", "body", "done", "eof", "timeout", "hang"}
+          /\ phase \in {"connect", "send", "len", "body", "done", "eof", "timeout", "hang"}
+          /\ (cfg.conn = "own" => cfg.api \in {"tcp", "tls"})
           /\ result \in {"-", "ret", "raise"}
           /\ got \in 0..need /\ pos \in 0..StreamLen /\ Len(sent) <= FrameQ
 
 \* send writes every octet of length||message exactly once, in order
 SendExact == /\ \A i \in 1..Len(sent) : sent[i] = i
              /\ (cfg.api # "recv" /\ phase \in {"len", "body", "done"}) => Len(sent) = FrameQ
+             /\ (phase = "connect" => sent = <<>> /\ pos = 0)   \* nothing before the connection is up
              /\ (cfg.api = "recv") => sent = <<>>
 
 \* the reassembled message equals the sent one for every chunking, and nothing behind
